@@ -712,12 +712,14 @@ def run_long_chains(spec, ctx):
 def run_laws(spec, ctx):
     R = Runner(ctx)
     r = ctx.rng
-    mags = [1, 3, 10, 2**31, 2**53, 2**63, 10**20, 10**30]
+    # ("at any magnitude": also beyond the range of a double, 2^1024, where nothing may go through a float)
+    mags = [1, 3, 10, 2**31, 2**53, 2**63, 10**20, 10**30, 10**100, 2**1024, 10**400, 10**1000]
     for i in range(spec["n"]):
         a = r.choice([1, -1]) * r.randint(0, r.choice(mags))
         b = r.choice([1, -1]) * r.randint(1, r.choice(mags))
         if i % 50 == 0:
-            a, b = r.choice([(2**63 - 1, 1), (2**53 + 1, 1), (10**30, 10**15), (-(2**63), -1), (7, -2), (-7, 2), (-7, -2)])
+            a, b = r.choice([(2**63 - 1, 1), (2**53 + 1, 1), (10**30, 10**15), (-(2**63), -1), (7, -2), (-7, 2), (-7, -2), (10**400, 10**399), (5, 10**400),
+                             (-(10**400), 3), (2**1024, 2**1023), (2**1024 - 1, -(2**1024)), (10**400 + 7, -(10**200))])
         ctx.case(("law", a, b))
         src = "[%d + %d, %d - %d, %d * %d, %d / %d, %d %% %d]" % (a, b, a, b, a, b, a, b, a, b)
         o, _ = R.ev(src.replace("+ -", "+ (-").replace("- -", "- (-") if False else
